@@ -1163,7 +1163,7 @@ class RlWriter:
         return scaled_images
 
     def _arrange_and_append_figures(self, figures, final_nodes, node):
-        should_clear_figures = False
+        should_clear_figures = bool(figures)
         if len(figures) > 1:
             figures = self._scale_images(figures)
             data = [
@@ -1174,13 +1174,10 @@ class RlWriter:
                 data.append([figures[-1], ""])
             table = Table(data)
             final_nodes.append(table)
-            figures = []
-        else:
-            if figures:
-                final_nodes.append(figures[0])
-                figures = []
-                should_clear_figures = True
-            final_nodes.append(node)
+        elif figures:
+            final_nodes.append(figures[0])
+        # the node that ends the run of figures is laid out after them
+        final_nodes.append(node)
         return should_clear_figures
 
     def tabularizeImages(self, nodes):
